@@ -749,6 +749,101 @@ theorem c02x_geo_three (S : Nat) : c02x_geo S 3 = 1 + S + S^2 := by simp [c02x_g
 def c02x_NoiseLe (t Q : Nat) (ph : Spec.ZPoly) (n V : Nat) : Prop :=
   ∀ j, j < n → (c07l_v true t Q (ph.getD j 0)).natAbs ≤ V
 
+
+/-! ## budget form -/
+
+/-- the noise-growth factor: `F ≤ G·max(V_a, V_b, 1)` -/
+def c02x_G (N t K S na nb : Nat) : Nat :=
+  N * ((2 * t * ((2^32 + 2 * K) * c02x_geo S na) + 2^33) + (2 * t * ((2^32 + 2 * K) * c02x_geo S nb) + 2^33))
+    + 2^33 * N + 2 * 2^33 * t * (K * c02x_geo S (na + nb - 1))
+
+theorem c02x_F_le_G_aux (N A B C p V Va Vb : Nat) (h1 : Va ≤ V) (h2 : Vb ≤ V) (h3 : 1 ≤ V) :
+    N * (A * Vb + B * Va) + p * N * Vb + C ≤ (N * (A + B) + p * N + C) * V := by
+  have e : (N * (A + B) + p * N + C) * V = N * (A * V + B * V) + p * N * V + C * V := by ring
+  rw [e]
+  exact Nat.add_le_add (Nat.add_le_add
+    (Nat.mul_le_mul_left N (Nat.add_le_add (Nat.mul_le_mul_left A h2) (Nat.mul_le_mul_left B h1)))
+    (Nat.mul_le_mul_left _ h2)) (Nat.le_mul_of_pos_right C h3)
+
+theorem c02x_F_le_G (N t K S na nb Va Vb : Nat) :
+    c02x_F N t K S na nb Va Vb ≤ c02x_G N t K S na nb * max (max Va Vb) 1 :=
+  c02x_F_le_G_aux N _ _ _ _ _ Va Vb (le_trans (le_max_left _ _) (le_max_left _ _))
+    (le_trans (le_max_right _ _) (le_max_left _ _)) (le_max_right _ _)
+
+/-- the budget noise of a coefficient is at most the size of ANY noise term of a splitting `t·x = Q·μ + ν` -/
+theorem c02x_v_le_any {t Q : Nat} (hQ : 0 < Q) {x μ ν : Int} (h : (t : Int) * x = Q * μ + ν) :
+    (c07l_v true t Q x).natAbs ≤ ν.natAbs := by
+  by_cases hν : 2 * ν.natAbs < Q
+  · rw [c07s_noise_unique h hν]
+  · have := (c02x_split t hQ x).2
+    omega
+
+theorem c02x_noiseNorm_le {t Q : Nat} (ph : Array Int) (B : Nat)
+    (h : ∀ j, j < ph.size → (c07l_v true t Q (ph.getD j 0)).natAbs ≤ B) : noiseNorm true t Q ph ≤ B := by
+  rw [c07l_noiseNorm_le_iff]
+  intro x hx
+  obtain ⟨j, hj, rfl⟩ := List.mem_iff_getElem.mp hx
+  have hj' : j < ph.size := by simpa using hj
+  have := h j hj'
+  simpa [Array.getD, hj'] using this
+
+theorem c02x_bitCount_lt (v : Nat) : v < 2^(bitCount v) := (bitCount_le_iff v _).1 (Nat.le_refl _)
+
+theorem c02x_bitCount_max (a b : Nat) : bitCount (max (max a b) 1) = max (max (bitCount a) (bitCount b)) 1 := by
+  apply Nat.le_antisymm
+  · rw [bitCount_le_iff]
+    have ha := c02x_bitCount_lt a
+    have hb := c02x_bitCount_lt b
+    have h1 : 2^(bitCount a) ≤ 2^(max (max (bitCount a) (bitCount b)) 1) := Nat.pow_le_pow_right (by norm_num) (by omega)
+    have h2 : 2^(bitCount b) ≤ 2^(max (max (bitCount a) (bitCount b)) 1) := Nat.pow_le_pow_right (by norm_num) (by omega)
+    have h3 : 2^1 ≤ 2^(max (max (bitCount a) (bitCount b)) 1) := Nat.pow_le_pow_right (by norm_num) (by omega)
+    omega
+  · have h1 := bitCount_mono (le_trans (le_max_left a b) (le_max_left _ 1))
+    have h2 := bitCount_mono (le_trans (le_max_right a b) (le_max_left _ 1))
+    have h3 := bitCount_mono (le_max_right (max a b) 1)
+    have e : bitCount 1 = 1 := by decide
+    omega
+
+/-- half of Q has fewer bits than Q -/
+theorem c02x_bitCount_half {V Q : Nat} (hQ : 0 < Q) (h : 2 * V ≤ Q) : bitCount V + 1 ≤ bitCount Q := by
+  have h1 := c02x_bitCount_lt Q
+  have hb : 1 ≤ bitCount Q := by unfold bitCount; rw [if_neg (by omega)]; omega
+  have hp : 2^(bitCount Q) = 2^(bitCount Q - 1) * 2 := by rw [← pow_succ]; congr 1; omega
+  have h2 : bitCount V ≤ bitCount Q - 1 := by
+    rw [bitCount_le_iff]
+    omega
+  omega
+
+
+theorem c02x_pow_le_of_bitCount {Q : Nat} (hQ : 0 < Q) : 2^(bitCount Q - 1) ≤ Q := by
+  by_contra hc
+  have h1 := (bitCount_le_iff Q (bitCount Q - 1)).2 (by omega)
+  have hb : 1 ≤ bitCount Q := by unfold bitCount; rw [if_neg (by omega)]; omega
+  omega
+
+/-- the 2 × 2 growth factor for a secret with `‖s‖₁ ≤ N`, `t ≤ T`, at most 64 moduli: `G ≤ 2^42·T·N²` -/
+theorem c02x_G_2x2 {N t K S T : Nat} (hN : 1 ≤ N) (hT1 : 1 ≤ T) (hT : t ≤ T) (hK : K ≤ 64) (hS : S ≤ N) :
+    c02x_G N t K S 2 2 ≤ 2^42 * (T * N^2) := by
+  unfold c02x_G
+  rw [c02x_geo_two, show 2 + 2 - 1 = 3 from rfl, c02x_geo_three]
+  have h1 : 1 + S ≤ 2 * N := by omega
+  have h2 : S^2 ≤ N^2 := Nat.pow_le_pow_left hS 2
+  have h3 : 1 + S + S^2 ≤ 3 * N^2 := by nlinarith
+  have h4 : 2^32 + 2 * K ≤ 2^32 + 128 := by omega
+  have step : N * ((2 * t * ((2^32 + 2 * K) * (1 + S)) + 2^33) + (2 * t * ((2^32 + 2 * K) * (1 + S)) + 2^33))
+      + 2^33 * N + 2 * 2^33 * t * (K * (1 + S + S^2))
+      ≤ N * ((2 * T * ((2^32 + 128) * (2 * N)) + 2^33) + (2 * T * ((2^32 + 128) * (2 * N)) + 2^33))
+      + 2^33 * N + 2 * 2^33 * T * (64 * (3 * N^2)) := by gcongr
+  refine le_trans step ?_
+  have hNN : N ≤ N^2 := by nlinarith
+  have e : N * ((2 * T * ((2^32 + 128) * (2 * N)) + 2^33) + (2 * T * ((2^32 + 128) * (2 * N)) + 2^33))
+      + 2^33 * N + 2 * 2^33 * T * (64 * (3 * N^2))
+      = (8 * (2^32 + 128) + 3 * 2^40) * (T * N^2) + 3 * 2^33 * N := by ring
+  rw [e]
+  have hX : N ≤ T * N^2 := le_trans hNN (Nat.le_mul_of_pos_left _ hT1)
+  generalize T * N^2 = Y at hX ⊢
+  omega
+
 /-! ## Property theorems -/
 
 /-- X1, operands (the invariant-noise convention of `Spec.budget`): every phase coefficient splits as `t·x = Q·m + ν` with
@@ -869,5 +964,155 @@ theorem bfvDecrypt_bfvMultiply {l : Level} {T : Array NTTTables} (hm : MulOK l T
           l.t.value)) := by
   rw [c02x_prodL hm] at hVa hVb h2a h2b hF ⊢
   exact c02x_decrypt_core hm hd ht ha hb hna hnb h1 h2 h3 hwin hr hsk hVa hVb h2a h2b hF
+
+theorem c02x_noiseNorm_half (t : Nat) {Q : Nat} (hQ : 0 < Q) (ph : Array Int) : 2 * noiseNorm true t Q ph ≤ Q := by
+  have := c02x_noiseNorm_le (t := t) (Q := Q) ph (Q / 2) (fun j _ => by
+    have := (c02x_split t hQ (ph.getD j 0)).2
+    omega)
+  omega
+
+/-- X2, budget form (ANY sizes).  With the noise-growth factor `G = c02x_G N t |q| ‖s‖₁ n_a n_b`
+    (`≈ N·t·(2^33+4|q|)·(G_a + G_b) + 3·2^33·N + 2^34·t·|q|·G_r`, scaled by 2^34) and any `L` with `G ≤ 2^(34+L)`:
+    `budget(result) ≥ min(budget a, budget b, bits(Q) − 2) − L`. -/
+theorem bfvMultiply_budget {l : Level} {T : Array NTTTables} (hm : MulOK l T) {a b r : Ct}
+    (ha : ∀ k, k < a.polys.size → RnsCanon l (a.polys.getD k #[]))
+    (hb : ∀ k, k < b.polys.size → RnsCanon l (b.polys.getD k #[]))
+    (hna : a.ntt = false) (hnb : b.ntt = false) (h1 : 1 ≤ a.polys.size) (h2 : 1 ≤ b.polys.size)
+    (hwin : c02w_Window l a.polys.size b.polys.size) (hr : bfvMultiply l T a b = .ok r)
+    {sk : Array Int} (hsk : sk.size = l.n) (L : Nat)
+    (hG : c02x_G l.n l.t.value l.size (∑ k ∈ range l.n, (sk.getD k 0).natAbs) a.polys.size b.polys.size ≤ 2^(34 + L)) :
+    min (min (Spec.budget true l.t.value (Spec.prodL (c01p_qvals l)) (Spec.phase (c01p_qvals l) l.n sk a.polys.toList))
+             (Spec.budget true l.t.value (Spec.prodL (c01p_qvals l)) (Spec.phase (c01p_qvals l) l.n sk b.polys.toList)))
+        (bitCount (Spec.prodL (c01p_qvals l)) - 2)
+      ≤ Spec.budget true l.t.value (Spec.prodL (c01p_qvals l)) (Spec.phase (c01p_qvals l) l.n sk r.polys.toList) + L := by
+  have hQ : 0 < Spec.prodL (c01p_qvals l) := by rw [c02x_prodL hm]; exact hm.tool.qwf.prod_pos
+  obtain ⟨r', hr', hsz, -, -, hcanr, -⟩ := bfvMultiply_ok hm ha hb hna hnb h1 h2
+  rw [hr] at hr'
+  obtain rfl := Except.ok.inj hr'
+  have hsr := c02x_phase_size hm sk (by rw [hsz]; omega) (fun k hk => hcanr k (by rw [← hsz]; exact hk))
+  generalize hQd : Spec.prodL (c01p_qvals l) = Q at *
+  generalize hpa : Spec.phase (c01p_qvals l) l.n sk a.polys.toList = pha at *
+  generalize hpb : Spec.phase (c01p_qvals l) l.n sk b.polys.toList = phb at *
+  generalize hpr : Spec.phase (c01p_qvals l) l.n sk r.polys.toList = phr at *
+  have hnoise := bfvMultiply_noise hm ha hb hna hnb h1 h2 hwin hr hsk
+    (Va := noiseNorm true l.t.value Q pha) (Vb := noiseNorm true l.t.value Q phb)
+    (by rw [hQd, hpa]; exact fun j _ => c07l_getD_le true l.t.value Q pha j)
+    (by rw [hQd, hpb]; exact fun j _ => c07l_getD_le true l.t.value Q phb j)
+  rw [hQd, hpa, hpb, hpr] at hnoise
+  generalize hVa : noiseNorm true l.t.value Q pha = Va at hnoise
+  generalize hVb : noiseNorm true l.t.value Q phb = Vb at hnoise
+  have hnr : noiseNorm true l.t.value Q phr ≤ 2^L * max (max Va Vb) 1 := by
+    apply c02x_noiseNorm_le
+    intro j hj
+    obtain ⟨μ, ν, e1, -, e3⟩ := hnoise j (by rw [← hsr]; exact hj)
+    refine le_trans (c02x_v_le_any hQ e1) ?_
+    have h4 := le_trans e3 (c02x_F_le_G _ _ _ _ _ _ Va Vb)
+    have h5 := Nat.mul_le_mul_right (max (max Va Vb) 1) hG
+    have h6 : 2^34 * ν.natAbs ≤ 2^34 * (2^L * max (max Va Vb) 1) := by
+      rw [← Nat.mul_assoc, ← pow_add]
+      have : 2^34 * ν.natAbs = 2 * 2^33 * ν.natAbs := by norm_num
+      omega
+    exact Nat.le_of_mul_le_mul_left h6 (by positivity)
+  have hbr : bitCount (noiseNorm true l.t.value Q phr) ≤ L + bitCount (max (max Va Vb) 1) := by
+    refine le_trans (bitCount_mono hnr) ?_
+    rw [bitCount_le_iff, pow_add]
+    exact Nat.mul_lt_mul_of_pos_left (c02x_bitCount_lt _) (by positivity)
+  rw [c02x_bitCount_max] at hbr
+  have ha1 := c02x_bitCount_half hQ (c02x_noiseNorm_half l.t.value hQ pha)
+  have hb1 := c02x_bitCount_half hQ (c02x_noiseNorm_half l.t.value hQ phb)
+  rw [hVa] at ha1
+  rw [hVb] at hb1
+  rw [budget_eq, budget_eq, budget_eq, hVa, hVb]
+  omega
+
+/-- X2 from budgets (ANY sizes): if `G ≤ 2^(34+L)` and both operand budgets are at least `L + 2` bits, the decoding of the product
+    is exact (X2's threshold holds) -/
+theorem bfvMultiply_decode_of_budget {l : Level} {T : Array NTTTables} (hm : MulOK l T) (ht : 0 < l.t.value) {a b r : Ct}
+    (ha : ∀ k, k < a.polys.size → RnsCanon l (a.polys.getD k #[]))
+    (hb : ∀ k, k < b.polys.size → RnsCanon l (b.polys.getD k #[]))
+    (hna : a.ntt = false) (hnb : b.ntt = false) (h1 : 1 ≤ a.polys.size) (h2 : 1 ≤ b.polys.size)
+    (hwin : c02w_Window l a.polys.size b.polys.size) (hr : bfvMultiply l T a b = .ok r)
+    {sk : Array Int} (hsk : sk.size = l.n) (L : Nat)
+    (hG : c02x_G l.n l.t.value l.size (∑ k ∈ range l.n, (sk.getD k 0).natAbs) a.polys.size b.polys.size ≤ 2^(34 + L))
+    (hβ : L + 2 ≤ min
+      (Spec.budget true l.t.value (Spec.prodL (c01p_qvals l)) (Spec.phase (c01p_qvals l) l.n sk a.polys.toList))
+      (Spec.budget true l.t.value (Spec.prodL (c01p_qvals l)) (Spec.phase (c01p_qvals l) l.n sk b.polys.toList))) :
+    Spec.bfvDecode l.t.value (Spec.prodL (c01p_qvals l)) (Spec.phase (c01p_qvals l) l.n sk r.polys.toList)
+      = Spec.negMul (Spec.bfvDecode l.t.value (Spec.prodL (c01p_qvals l)) (Spec.phase (c01p_qvals l) l.n sk a.polys.toList))
+          (Spec.bfvDecode l.t.value (Spec.prodL (c01p_qvals l)) (Spec.phase (c01p_qvals l) l.n sk b.polys.toList))
+          l.t.value := by
+  have hQ : 0 < Spec.prodL (c01p_qvals l) := by rw [c02x_prodL hm]; exact hm.tool.qwf.prod_pos
+  have hQp := c02x_pow_le_of_bitCount hQ
+  rw [budget_eq, budget_eq] at hβ
+  have hVa : c02x_NoiseLe l.t.value (Spec.prodL (c01p_qvals l)) (Spec.phase (c01p_qvals l) l.n sk a.polys.toList) l.n
+      (noiseNorm true l.t.value (Spec.prodL (c01p_qvals l)) (Spec.phase (c01p_qvals l) l.n sk a.polys.toList)) :=
+    fun j _ => c07l_getD_le true _ _ _ j
+  have hVb : c02x_NoiseLe l.t.value (Spec.prodL (c01p_qvals l)) (Spec.phase (c01p_qvals l) l.n sk b.polys.toList) l.n
+      (noiseNorm true l.t.value (Spec.prodL (c01p_qvals l)) (Spec.phase (c01p_qvals l) l.n sk b.polys.toList)) :=
+    fun j _ => c07l_getD_le true _ _ _ j
+  have hF0 := c02x_F_le_G l.n l.t.value l.size (∑ k ∈ range l.n, (sk.getD k 0).natAbs) a.polys.size b.polys.size
+    (noiseNorm true l.t.value (Spec.prodL (c01p_qvals l)) (Spec.phase (c01p_qvals l) l.n sk a.polys.toList))
+    (noiseNorm true l.t.value (Spec.prodL (c01p_qvals l)) (Spec.phase (c01p_qvals l) l.n sk b.polys.toList))
+  have hbm := c02x_bitCount_max
+    (noiseNorm true l.t.value (Spec.prodL (c01p_qvals l)) (Spec.phase (c01p_qvals l) l.n sk a.polys.toList))
+    (noiseNorm true l.t.value (Spec.prodL (c01p_qvals l)) (Spec.phase (c01p_qvals l) l.n sk b.polys.toList))
+  generalize noiseNorm true l.t.value (Spec.prodL (c01p_qvals l)) (Spec.phase (c01p_qvals l) l.n sk a.polys.toList) = Va at *
+  generalize noiseNorm true l.t.value (Spec.prodL (c01p_qvals l)) (Spec.phase (c01p_qvals l) l.n sk b.polys.toList) = Vb at *
+  have hla := c02x_bitCount_lt Va
+  have hlb := c02x_bitCount_lt Vb
+  have hlv := c02x_bitCount_lt (max (max Va Vb) 1)
+  rw [hbm] at hlv
+  have pa : 2^(bitCount Va + 1) ≤ 2^(bitCount (Spec.prodL (c01p_qvals l)) - 1) := Nat.pow_le_pow_right (by norm_num) (by omega)
+  have pb : 2^(bitCount Vb + 1) ≤ 2^(bitCount (Spec.prodL (c01p_qvals l)) - 1) := Nat.pow_le_pow_right (by norm_num) (by omega)
+  rw [pow_succ] at pa pb
+  have pv : 2^(34 + L) * 2^(max (max (bitCount Va) (bitCount Vb)) 1) ≤ 2^33 * 2^(bitCount (Spec.prodL (c01p_qvals l)) - 1) := by
+    rw [← pow_add, ← pow_add]
+    exact Nat.pow_le_pow_right (by norm_num) (by omega)
+  refine bfvMultiply_decode hm ht ha hb hna hnb h1 h2 hwin hr hsk hVa hVb (by omega) (by omega) ?_
+  have s1 := Nat.mul_le_mul_right (max (max Va Vb) 1) hG
+  have s2 : 2^(34 + L) * max (max Va Vb) 1 < 2^(34 + L) * 2^(max (max (bitCount Va) (bitCount Vb)) 1) :=
+    Nat.mul_lt_mul_of_pos_left hlv (by positivity)
+  have s3 : 2^33 * 2^(bitCount (Spec.prodL (c01p_qvals l)) - 1) ≤ 2^33 * Spec.prodL (c01p_qvals l) := Nat.mul_le_mul_left _ hQp
+  omega
+
+/-- X2, the harness rule `Prog::pred_mul` (harness/src/c02.rs: `min(pred a, pred b) − (log2 t + 2·log2 N + 10 + size a + size b)`)
+    is SOUND for 2 × 2 products, for every secret with `‖s‖₁ ≤ N` (e.g. ternary), `t ≤ 2^lt`, `N = 2^k`:
+    (i) the true budget of the product is at least `min(budget a, budget b) − (lt + 2k + 9)` — the rule subtracts `lt + 2k + 14`;
+    (ii) whenever `min(budget a, budget b) ≥ lt + 2k + 10` (in particular whenever the rule predicts ≥ 1 bit from lower bounds of
+    the operand budgets) the decoding of the product is exact. -/
+theorem pred_mul_sound_2x2 {l : Level} {T : Array NTTTables} (hm : MulOK l T) (ht : 0 < l.t.value) {a b r : Ct}
+    (ha : ∀ k, k < a.polys.size → RnsCanon l (a.polys.getD k #[]))
+    (hb : ∀ k, k < b.polys.size → RnsCanon l (b.polys.getD k #[]))
+    (hna : a.ntt = false) (hnb : b.ntt = false) (h1 : a.polys.size = 2) (h2 : b.polys.size = 2)
+    (hwin : c02w_Window l 2 2) (hr : bfvMultiply l T a b = .ok r)
+    {sk : Array Int} (hsk : sk.size = l.n) (hS : ∑ k ∈ range l.n, (sk.getD k 0).natAbs ≤ l.n)
+    {lt : Nat} (hlt : l.t.value ≤ 2^lt) :
+    (min (Spec.budget true l.t.value (Spec.prodL (c01p_qvals l)) (Spec.phase (c01p_qvals l) l.n sk a.polys.toList))
+         (Spec.budget true l.t.value (Spec.prodL (c01p_qvals l)) (Spec.phase (c01p_qvals l) l.n sk b.polys.toList))
+      ≤ Spec.budget true l.t.value (Spec.prodL (c01p_qvals l)) (Spec.phase (c01p_qvals l) l.n sk r.polys.toList)
+          + (lt + 2 * l.k + 9)) ∧
+    (lt + 2 * l.k + 10 ≤ min
+        (Spec.budget true l.t.value (Spec.prodL (c01p_qvals l)) (Spec.phase (c01p_qvals l) l.n sk a.polys.toList))
+        (Spec.budget true l.t.value (Spec.prodL (c01p_qvals l)) (Spec.phase (c01p_qvals l) l.n sk b.polys.toList)) →
+      Spec.bfvDecode l.t.value (Spec.prodL (c01p_qvals l)) (Spec.phase (c01p_qvals l) l.n sk r.polys.toList)
+        = Spec.negMul (Spec.bfvDecode l.t.value (Spec.prodL (c01p_qvals l)) (Spec.phase (c01p_qvals l) l.n sk a.polys.toList))
+            (Spec.bfvDecode l.t.value (Spec.prodL (c01p_qvals l)) (Spec.phase (c01p_qvals l) l.n sk b.polys.toList))
+            l.t.value) := by
+  have hK : l.size ≤ 64 := by rw [← c02w_base_size hm]; exact hm.tool.qwf.le64
+  have hG : c02x_G l.n l.t.value l.size (∑ k ∈ range l.n, (sk.getD k 0).natAbs) a.polys.size b.polys.size
+      ≤ 2^(34 + (lt + 2 * l.k + 8)) := by
+    rw [h1, h2]
+    refine le_trans (c02x_G_2x2 (c01q_n_pos hm.lwf) (Nat.one_le_two_pow) hlt hK hS) ?_
+    rw [hm.lwf.npow, ← pow_mul, ← pow_add, ← pow_add]
+    exact Nat.pow_le_pow_right (by norm_num) (by omega)
+  have hwin' : c02w_Window l a.polys.size b.polys.size := by rw [h1, h2]; exact hwin
+  constructor
+  · have hQ : 0 < Spec.prodL (c01p_qvals l) := by rw [c02x_prodL hm]; exact hm.tool.qwf.prod_pos
+    have hbud := bfvMultiply_budget hm ha hb hna hnb (by omega) (by omega) hwin' hr hsk _ hG
+    have hha := c02x_bitCount_half hQ (c02x_noiseNorm_half l.t.value hQ (Spec.phase (c01p_qvals l) l.n sk a.polys.toList))
+    rw [budget_eq, budget_eq, budget_eq] at hbud ⊢
+    omega
+  · intro hβ
+    exact bfvMultiply_decode_of_budget hm ht ha hb hna hnb (by omega) (by omega) hwin' hr hsk _ hG (by omega)
 
 end HC
